@@ -67,6 +67,7 @@ impl Diag {
 
 struct Step {
     exe: ExecutableTransaction,
+    wire: Wire,
     parts: Vec<(&'static str, Vec<u8>)>,
     text: String,
     outcome: String,
@@ -96,7 +97,9 @@ fn run_case(g: &mut Gen, w: &mut World) -> Outcome {
         let plan = gen_plan(g, w, &model, &opts);
         let text = plan.describe(w);
         let nonce = w.sim.next_transaction_nonce();
-        let exe = match executable(w, plan.render(w), nonce, &plan.proofs(w)) {
+        let manifest = plan.render(w);
+        let wire: Wire = (manifest_encode(&manifest).unwrap(), nonce, plan.proofs(w));
+        let exe = match executable(w, manifest, nonce, &plan.proofs(w)) {
             Ok(e) => e,
             Err(e) => return Outcome::fail("harness/mgen: generated manifest is not a valid executable", format!("{} :: {}", e, text)),
         };
@@ -123,7 +126,7 @@ fn run_case(g: &mut Gen, w: &mut World) -> Outcome {
             });
         }
         commit(w.sim.substate_db_mut(), &receipt);
-        steps.push(Step { exe, parts: parts(&receipt), text, outcome: outcome_string(&receipt) });
+        steps.push(Step { exe, wire, parts: parts(&receipt), text, outcome: outcome_string(&receipt) });
     }
     g.count("history transactions", steps.len() as u64);
     g.count("history transactions running WASM beyond the faucet", wasm_runs);
@@ -131,7 +134,9 @@ fn run_case(g: &mut Gen, w: &mut World) -> Outcome {
     let plan = gen_plan(g, w, &model, &Opts { fail_pct: 25, ..Opts::history() });
     let probe_text = plan.describe(w);
     let nonce = w.sim.next_transaction_nonce();
-    let exe = match executable(w, plan.render(w), nonce, &plan.proofs(w)) {
+    let probe_manifest = plan.render(w);
+    let probe_wire: Wire = (manifest_encode(&probe_manifest).unwrap(), nonce, plan.proofs(w));
+    let exe = match executable(w, probe_manifest, nonce, &plan.proofs(w)) {
         Ok(e) => e,
         Err(e) => return Outcome::fail("harness/mgen: generated manifest is not a valid executable", format!("{} :: {}", e, probe_text)),
     };
@@ -273,6 +278,32 @@ fn run_case(g: &mut Gen, w: &mut World) -> Outcome {
         }
     }
     g.count("probe executions compared with the baseline", compared);
+    // ---- the same history and probe in a freshly spawned process (thorough tier and replays only) ----
+    if child_mode_enabled() && g.chance(1, 16) {
+        g.label("history and probe repeated in a child process");
+        let mut wires: Vec<Wire> = steps.iter().map(|s| s.wire.clone()).collect();
+        wires.push(probe_wire.clone());
+        let mut all_parts: Vec<&[(&'static str, Vec<u8>)]> = steps.iter().map(|s| s.parts.as_slice()).collect();
+        all_parts.push(base_parts.as_slice());
+        let mine = digest_lines(&all_parts, &db_digest(w.db()));
+        match run_child(&wires) {
+            Err(e) => return Outcome::fail("harness: child process could not be run", format!("{} :: {}", e, context(&steps))),
+            Ok(theirs) => {
+                if let Some((a, b)) = mine.iter().zip(theirs.iter()).find(|(a, b)| a != b) {
+                    let part = a.splitn(3, ' ').nth(1).unwrap_or("result kind").replace('_', " ");
+                    return Outcome::fail(
+                        sig_diff("two processes", &part),
+                        format!("this process: '{}' ; child process: '{}' (line = transaction index, part, hash; 'db' = database after the history) :: {}", a, b, context(&steps)),
+                    );
+                }
+                if mine.len() != theirs.len() {
+                    return Outcome::fail("harness: child process printed another number of digest lines", format!("{} vs {} :: {}", mine.len(), theirs.len(), context(&steps)));
+                }
+                g.count("cases repeated in a child process", 1);
+            }
+        }
+    }
+
     // ---- replay of the whole history from the snapshot ----
     let final_db = w.db().clone();
     w.reset();
@@ -325,15 +356,119 @@ fn history_text(steps: &[Step], current: &str) -> String {
     format!("history [{}] ; failing transaction {}", steps.iter().map(|s| format!("{} => {}", s.text, s.outcome)).collect::<Vec<_>>().join(" | "), current)
 }
 
+/// (manifest bytes, nonce, initial proofs): what a child process needs to rebuild one executable.
+type Wire = (Vec<u8>, u32, Vec<NonFungibleGlobalId>);
+
+fn child_mode_enabled() -> bool {
+    // argv: <bin> <ID> quick|thorough|--replay <file>; the child-process repetition costs a process and a
+    // world per use, so the quick tier leaves it out
+    std::env::args().nth(2).map(|a| a != "quick").unwrap_or(false)
+}
+
+fn db_digest(db: &Db) -> String {
+    let mut bytes = Vec::new();
+    for ((node, partition, key), value) in dump(db) {
+        bytes.extend_from_slice(&(node.len() as u32).to_le_bytes());
+        bytes.extend_from_slice(&node);
+        bytes.push(partition);
+        bytes.extend_from_slice(&(key.len() as u32).to_le_bytes());
+        bytes.extend_from_slice(&key);
+        bytes.extend_from_slice(&(value.len() as u32).to_le_bytes());
+        bytes.extend_from_slice(&value);
+    }
+    hash(bytes).to_string()
+}
+
+fn digest_lines(all_parts: &[&[(&'static str, Vec<u8>)]], db: &str) -> Vec<String> {
+    let mut out = Vec::new();
+    for (i, ps) in all_parts.iter().enumerate() {
+        if i + 1 == all_parts.len() {
+            out.push(format!("db database {}", db));
+        }
+        for (name, bytes) in ps.iter() {
+            out.push(format!("{} {} {}", i, name.replace(' ', "_"), hash(bytes)));
+        }
+    }
+    out
+}
+
+fn run_child(wires: &[Wire]) -> Result<Vec<String>, String> {
+    use std::sync::atomic::{AtomicU64, Ordering};
+    static COUNTER: AtomicU64 = AtomicU64::new(0);
+    let dir = vf_core::verif_root().join(".work");
+    std::fs::create_dir_all(&dir).map_err(|e| format!("{}: {}", dir.display(), e))?;
+    let file = dir.join(format!("c01-child-{}-{}.bin", std::process::id(), COUNTER.fetch_add(1, Ordering::Relaxed)));
+    std::fs::write(&file, scrypto_encode(&wires.to_vec()).unwrap()).map_err(|e| format!("{}: {}", file.display(), e))?;
+    let exe = std::env::current_exe().map_err(|e| e.to_string())?;
+    let out = std::process::Command::new(exe).arg("c01-child").arg(&file).output();
+    let _ = std::fs::remove_file(&file);
+    let out = out.map_err(|e| e.to_string())?;
+    if !out.status.success() {
+        return Err(format!("child exited with {:?}: {}", out.status.code(), String::from_utf8_lossy(&out.stderr)));
+    }
+    Ok(String::from_utf8_lossy(&out.stdout).lines().map(|l| l.to_string()).collect())
+}
+
+/// Entry point of the child process (`vf-eng-a c01-child <file>`): builds its own world, commits the
+/// history, executes the probe without committing, and prints the digest lines.
+pub fn child_main(file: &str) -> i32 {
+    let bytes = match std::fs::read(file) {
+        Ok(b) => b,
+        Err(e) => {
+            eprintln!("c01-child: {}: {}", file, e);
+            return 2;
+        }
+    };
+    let wires: Vec<Wire> = match scrypto_decode(&bytes) {
+        Ok(w) => w,
+        Err(e) => {
+            eprintln!("c01-child: cannot decode {}: {:?}", file, e);
+            return 2;
+        }
+    };
+    let lines = with_world("c01", no_genesis, build_world, |w| -> Result<Vec<String>, String> {
+        let modules = new_modules();
+        let mut all: Vec<Vec<(&'static str, Vec<u8>)>> = Vec::new();
+        let mut db = String::new();
+        for (i, (manifest, nonce, proofs)) in wires.iter().enumerate() {
+            let manifest: TransactionManifestV1 = manifest_decode(manifest).map_err(|e| format!("manifest {}: {:?}", i, e))?;
+            let exe = executable(w, manifest, *nonce, proofs)?;
+            let last = i + 1 == wires.len();
+            if last {
+                db = db_digest(w.db());
+            }
+            let receipt = exec(w.db(), &modules, &Diag::BASE.config(), &exe)?;
+            if !last {
+                commit(w.sim.substate_db_mut(), &receipt);
+            }
+            all.push(parts(&receipt));
+        }
+        let refs: Vec<&[(&'static str, Vec<u8>)]> = all.iter().map(|p| p.as_slice()).collect();
+        Ok(digest_lines(&refs, &db))
+    });
+    match lines {
+        Ok(lines) => {
+            for l in lines {
+                println!("{}", l);
+            }
+            0
+        }
+        Err(e) => {
+            eprintln!("c01-child: {}", e);
+            3
+        }
+    }
+}
+
 pub fn check() -> Check {
     Check::new(
         "C01",
         "Transaction execution is deterministic",
-        "A history of 1-12 generated transactions (typed manifest generator over the standard world: fungible / XRD / non-fungible transfers through every deposit style, mint / burn with and without the badge proof, NF mints incl. RUID ids, NF data updates, faucet free / lock_fee (WASM), calls of published WAT packages and publishing new ones, puppet scripts creating many nodes / KV entries in tape-chosen key order / events / logs / component state writes incl. a royalty-charging component, deliberate failures of 14 kinds, fees from the faucet or 1-3 account vaults incl. contingent locks, too-small and missing fee locks) is committed; then a generated probe is executed without committing under a baseline (no diagnostics, warm code cache) and under 11 (one case in sixteen: all 48) combinations of {kernel trace, cost breakdown, execution trace None/Some(1)/Some(MAX), debug information} x {cold VmModules created for that execution, warm VmModules that executed the history}, and twice on each of 8 threads sharing one cold VmModules. Every comparable receipt part (result kind, outcome, state updates, events, logs, fee summary, fee source, fee destination, new entities, costing parameters, nullifications) must be byte-identical (SBOR) to the baseline. The whole history is then replayed from the snapshot on a cold cache under other diagnostic settings: every receipt part and the final database (all partitions / substates) must be identical. Non-trivial = the probe commits, its state updates name >= 5 substates and some compared configuration differs from the baseline in at least two of {the four flags, cache state}. Distinct = distinct decoded choice sequences.",
+        "A history of 1-12 generated transactions (typed manifest generator over the standard world: fungible / XRD / non-fungible transfers through every deposit style, mint / burn with and without the badge proof, NF mints incl. RUID ids, NF data updates, faucet free / lock_fee (WASM), calls of published WAT packages and publishing new ones, puppet scripts creating many nodes / KV entries in tape-chosen key order / events / logs / component state writes incl. a royalty-charging component, deliberate failures of 15 kinds, fees from the faucet or 1-3 account vaults incl. contingent locks, too-small and missing fee locks) is committed; then a generated probe is executed without committing under a baseline (no diagnostics, warm code cache) and under 11 (one case in sixteen: all 48) combinations of {kernel trace, cost breakdown, execution trace None/Some(1)/Some(MAX), debug information} x {cold VmModules created for that execution, warm VmModules that executed the history}, and twice on each of 8 threads sharing one cold VmModules. Every comparable receipt part (result kind, outcome, state updates, events, logs, fee summary, fee source, fee destination, new entities, costing parameters, nullifications) must be byte-identical (SBOR) to the baseline. The whole history is then replayed from the snapshot on a cold cache under other diagnostic settings: every receipt part and the final database (all partitions / substates) must be identical. Non-trivial = the probe commits, its state updates name >= 5 substates and some compared configuration differs from the baseline in at least two of {the four flags, cache state}. Distinct = distinct decoded choice sequences.",
     )
     .assume("thread interleavings are sampled by stress (8 threads x 2 executions sharing one cold code cache per case), not enumerated")
-    .assume("'any process' is covered only in so far as every case runs on one of 16 worker threads with its own world and fresh VmModules (per-instance hash seeds differ); the child-process mode of DESIGN (T only) is not implemented")
+    .assume("'any process': in the thorough tier (and in replays) one case in sixteen repeats its history and probe in a freshly spawned child process that builds its own world, and compares per-part hashes of every receipt and of the database; the quick tier covers it only in so far as every case runs on one of 16 worker threads with its own world and fresh VmModules (per-instance hash seeds differ)")
     .assume("fee_details, debug_information, execution_trace, resources_usage, state_update_summary.vault_balance_changes and system_structure are not compared (diagnostics or annotations derived from the compared parts)")
-    .part(Part::new("history+probe", 320, 12_000, 6000, case))
+    .part(Part::new("history+probe", 320, 8_000, 6000, case))
     .min_nontrivial_pct(20.0)
 }
